@@ -82,8 +82,10 @@ Fields(line) == MapStrip(SplitCh(line, "\t"))
 \* protocols/http.py:18  requestparts = [arg.strip() for arg in self.request.split(" ")]
 SpParts(line) == MapStrip(SplitCh(line, " "))
 \* protocols/base.py:60-68 slashnormalize (used by C01/C03 builders; kept here with Fields)
+RECURSIVE RStripSlash(_)
+RStripSlash(sel) == IF Len(sel) > 0 /\ Chr(sel, Len(sel)) = "/" THEN RStripSlash(SubSeq(sel, 1, Len(sel) - 1)) ELSE sel
 SlashNormalize(sel) ==
-    LET a == IF Len(sel) > 0 /\ Chr(sel, Len(sel)) = "/" THEN SubSeq(sel, 1, Len(sel) - 1) ELSE sel
+    LET a == RStripSlash(sel)         \* selector.rstrip("/") since fix 5eb47a4 (one slash only before)
     IN IF Len(a) = 0 \/ Chr(a, 1) # "/" THEN "/" \o a ELSE a
 
 (* ------------------------------------------------------------------------------------ *)
